@@ -561,8 +561,9 @@ def run_check(prop, tier, seed):
     except OSError: pass
     # ---- report
     lines, exit_code = [], 0
-    for sig, (k, msg) in known_hits.items():
-        lines.append("KNOWN-FINDING: property=%s %s" % (prop.id, open_sigs[sig].get("what", msg)))
+    # one line per LISTED open finding (whether or not this run's cases reached it), so that the output does not depend on the seed
+    for sig, f in open_sigs.items():
+        lines.append("KNOWN-FINDING: property=%s %s [%s]" % (prop.id, f.get("what", sig), "reproduced in this run" if sig in known_hits else "not reached by this run's cases"))
     reported = set()
     for k, sig, msg in violations:
         if sig in reported: continue
